@@ -42,11 +42,98 @@ func rootOf(v ssa.Value) ssa.Value {
 				return v
 			}
 			v = next
+		case *ssa.Extract:
+			// result k of a helper that hands back a reslice of one of its
+			// parameters (splitTag(sealed) -> sealed[:cut], sealed[cut:], ok)
+			if call, ok := x.Tuple.(*ssa.Call); ok {
+				if a := resliceOfArg(call, x.Index); a != nil {
+					v = a
+					continue
+				}
+			}
+			return v
+		case *ssa.Call:
+			if a := resliceOfArg(x, 0); a != nil && x.Call.Signature().Results().Len() == 1 {
+				v = a
+				continue
+			}
+			return v
 		default:
 			return v
 		}
 	}
 	return v
+}
+
+// strictRoot: the value every incoming edge of every phi on the way is carved
+// from (a buffer that is EITHER a reslice of a parameter OR freshly made, like
+// sliceForAppend's, has no single root and is its own root).
+func strictRoot(v ssa.Value, depth int) ssa.Value {
+	for i := 0; i < 16; i++ {
+		switch x := v.(type) {
+		case *ssa.Slice:
+			v = x.X
+		case *ssa.ChangeType:
+			v = x.X
+		case *ssa.Convert:
+			v = x.X
+		case *ssa.Phi:
+			if depth > 4 {
+				return x
+			}
+			var root ssa.Value
+			for _, e := range x.Edges {
+				r := strictRoot(e, depth+1)
+				if r == ssa.Value(x) {
+					continue
+				}
+				if root != nil && r != root {
+					return x
+				}
+				root = r
+			}
+			if root == nil {
+				return x
+			}
+			return root
+		default:
+			return v
+		}
+	}
+	return v
+}
+
+// resliceOfArg: when result k of a static same-module callee is, on every
+// return, nil or carved from one and the same parameter, the argument passed
+// for that parameter (else nil).
+func resliceOfArg(call *ssa.Call, k int) ssa.Value {
+	callee := call.Call.StaticCallee()
+	if callee == nil || len(callee.Blocks) == 0 || callee.Pkg == nil || !strings.HasPrefix(callee.Pkg.Pkg.Path(), modPath) {
+		return nil
+	}
+	idx := -1
+	for _, r := range returnsOf(callee) {
+		if k >= len(r.Results) {
+			return nil
+		}
+		rv := r.Results[k]
+		if isNilConst(rv) {
+			continue
+		}
+		p, ok := strictRoot(rv, 0).(*ssa.Parameter)
+		if !ok {
+			return nil
+		}
+		pi := paramIndex(callee, p)
+		if pi < 0 || idx >= 0 && idx != pi {
+			return nil
+		}
+		idx = pi
+	}
+	if idx < 0 || idx >= len(call.Call.Args) {
+		return nil
+	}
+	return call.Call.Args[idx]
 }
 
 func rootOf2(v ssa.Value, stop *ssa.Phi) ssa.Value {
